@@ -10,8 +10,9 @@ CONSTANTS MaxLen, MaxL, MaxTags, FindLens, FindPos
 PadByte == 238
 FillA(i) == (i * 7 + 13) % 251
 FillB(i) == (i * 11 + 5) % 256
-\* v = 0, 1: two marker fills; v = 2: all zeros; v = 3: all ones (values a decoder might treat specially)
-Fill(v, i) == CASE v = 0 -> FillA(i) [] v = 1 -> FillB(i) [] v = 2 -> 0 [] OTHER -> 255
+\* v = 0, 1: two marker fills (ascending with the position); v = 2: all zeros; v = 3: all ones
+\* v = 4: descending with the position (of two adjacent fields the later one holds the smaller value)
+Fill(v, i) == CASE v = 0 -> FillA(i) [] v = 1 -> FillB(i) [] v = 2 -> 0 [] v = 4 -> 250 - (i % 250) [] OTHER -> 255
 Override(b, off, x) == [i \in 1..Len(b) |-> IF i > off /\ i <= off + Len(x) THEN x[i - off] ELSE b[i]]
 RECURSIVE Concat(_)
 Concat(ss) == IF ss = <<>> THEN <<>> ELSE ss[1] \o Concat(Tail(ss))
@@ -107,7 +108,7 @@ HWalkCase(p) ==
 
 \* ---- HFields ----------------------------------------------------------------------------------------------
 Nbr == HTag(6, 1, 8, 0)
-HFieldsParams == { [kind |-> n, v |-> v, pos |-> pos, arch |-> a] : n \in GettableKinds, v \in {0, 1, 2, 3}, pos \in {0, 1}, a \in {0, 4} }
+HFieldsParams == { [kind |-> n, v |-> v, pos |-> pos, arch |-> a] : n \in GettableKinds, v \in {0, 1, 2, 3, 4}, pos \in {0, 1}, a \in {0, 4} }
 HFieldsCase(p) ==
   [mem |-> HdrImage(p.arch, IF p.pos = 0 THEN <<HConformantTag(p.kind, p.v), HTag(0, 0, 8, 0)>>
                             ELSE <<HTag(7, 1, 8, 0), HConformantTag(p.kind, p.v), HTag(0, 0, 8, 0)>>),
